@@ -77,7 +77,14 @@ func smpMsgs(seed int64, long bool) map[string]string {
 		if fnv32a(c)%4096 != ba && m["b"] == "" {
 			m["b"] = c
 		}
-		if m["a2"] != "" && m["b"] != "" {
+		// neighbours of a's bucket at the distance of the number of levels: independent keys, whatever the level
+		if fnv32a(c)%4096 == (ba+4096-7)%4096 && m["c"] == "" {
+			m["c"] = c
+		}
+		if fnv32a(c)%4096 == (ba+7)%4096 && m["d"] == "" {
+			m["d"] = c
+		}
+		if m["a2"] != "" && m["b"] != "" && m["c"] != "" && m["d"] != "" {
 			return m
 		}
 	}
@@ -259,6 +266,9 @@ func checkC11(c *Ctx) {
 		c.MustTLC(TLCOpts{Module: "Sampler", Cfg: "Sampler.seq", Gen: true, Workers: 1, Simulate: fmt.Sprintf("num=%d", c.Pick(700, 8000)), Depth: 80, Seed: c.Seed + 7,
 			Consts: smpConsts(tg, map[string]string{"Emit": "TRUE", "E": "6", "Levels": `{"on", "on2", "off", "oor"}`, "Msgs": `{"a", "b"}`, "Times": "{0, 1, 2}", "InitMin": `"` + im + `"`, "MaxToggles": "3"}), OnBeh: seqCb(tg)})
 	}
+	// messages in neighbouring buckets at different levels (independent budgets)
+	c.MustTLC(TLCOpts{Module: "Sampler", Cfg: "Sampler.seq", Gen: true, Workers: 1, Simulate: fmt.Sprintf("num=%d", c.Pick(1200, 15000)), Depth: 80, Seed: c.Seed + 3,
+		Consts: smpConsts(mixed, map[string]string{"Emit": "TRUE", "E": "7", "Levels": `{"on", "on2"}`, "Msgs": `{"a", "c", "d"}`, "Times": "{0, 1}"}), OnBeh: seqCb(mixed)})
 	c.Set("sequential_histories_replayed", int64(nseq))
 
 	// ---- concurrent schedules forced through the gates
@@ -723,6 +733,56 @@ func smpStress(c *Ctx, msgs map[string]string) {
 		c.Add("traces_validated_against_impl", 1)
 	}
 	c.Set("open_window_contention_runs", int64(heavy))
+	// the first entries a sampler ever sees at a level, from several goroutines at once, each with a key of its own:
+	// per key everything is sequential, so the count is exact
+	first := c.Pick(300, 3000)
+	for r := 0; r < first && !c.Saturated(); r++ {
+		const G, K = 8, 6
+		cnt := map[string]*int64{}
+		keys := make([]string, G)
+		used := map[uint32]bool{}
+		for g, i := 0, 0; g < G; i++ {
+			k := fmt.Sprintf("first-use-%d-%d", r, i)
+			if b := fnv32a(k) % 4096; !used[b] {
+				used[b] = true
+				keys[g] = k
+				cnt[k] = new(int64)
+				g++
+			}
+		}
+		var hookS int64
+		core := zapcore.NewSamplerWithOptions(smpKeyCount(cnt), time.Hour, 1, 0, zapcore.SamplerHook(func(e zapcore.Entry, d zapcore.SamplingDecision) {
+			if d == zapcore.LogSampled {
+				atomic.AddInt64(&hookS, 1)
+			}
+		}))
+		var spin int32
+		var wg sync.WaitGroup
+		t0 := time.Unix(0, smpBase)
+		lvl := []zapcore.Level{zapcore.InfoLevel, zapcore.WarnLevel, zapcore.ErrorLevel}[r%3]
+		for g := 0; g < G; g++ {
+			wg.Add(1)
+			go func(g int) {
+				defer wg.Done()
+				atomic.AddInt32(&spin, 1)
+				for atomic.LoadInt32(&spin) < G {
+				}
+				for k := 0; k < K; k++ {
+					if ce := core.Check(zapcore.Entry{Level: lvl, Message: keys[g], Time: t0}, nil); ce != nil {
+						ce.Write()
+					}
+				}
+			}(g)
+		}
+		wg.Wait()
+		for _, k := range keys {
+			if n := atomic.LoadInt64(cnt[k]); n != 1 {
+				c.Violation("C11/decision", fmt.Sprintf("%d goroutines log the first %v entries a fresh sampler (first=1, thereafter=0) ever sees, each goroutine its own message (distinct buckets) %d times with one timestamp: message %q was admitted %d times, the rule says once", G, lvl, K, k, n), map[string]interface{}{"mode": "first-use-race"})
+				break
+			}
+		}
+		c.Add("traces_validated_against_impl", 1)
+	}
 	smpConfigFrontEnd(c)
 }
 
@@ -795,3 +855,21 @@ func (c *smpCountCore) Check(e zapcore.Entry, ce *zapcore.CheckedEntry) *zapcore
 }
 func (c *smpCountCore) Write(zapcore.Entry, []zapcore.Field) error { atomic.AddInt64(&c.n, 1); return nil }
 func (c *smpCountCore) Sync() error                               { return nil }
+
+
+// smpKeyCount counts forwarded entries per message.
+type smpKeyCountCore struct{ cnt map[string]*int64 }
+
+func smpKeyCount(cnt map[string]*int64) *smpKeyCountCore { return &smpKeyCountCore{cnt} }
+func (c *smpKeyCountCore) Enabled(zapcore.Level) bool        { return true }
+func (c *smpKeyCountCore) With([]zapcore.Field) zapcore.Core { return c }
+func (c *smpKeyCountCore) Check(e zapcore.Entry, ce *zapcore.CheckedEntry) *zapcore.CheckedEntry {
+	return ce.AddCore(e, c)
+}
+func (c *smpKeyCountCore) Write(e zapcore.Entry, _ []zapcore.Field) error {
+	if p := c.cnt[e.Message]; p != nil {
+		atomic.AddInt64(p, 1)
+	}
+	return nil
+}
+func (c *smpKeyCountCore) Sync() error { return nil }
